@@ -117,9 +117,9 @@ def harnesses(tier):
     assume = ['client table pre-state: arbitrary state satisfying the representation invariant of DESIGN.md 4.19 (<=2 synchronized + 1 ephemeral client)',
               'requests reach the publisher in per-connection FIFO order']
     hs = [
-        Harness('c04.send_step', send_step(2 if q else 3), twin=send_step(2, planted='oracle'),
+        Harness('c04.send_step', send_step(2), twin=send_step(2, planted='oracle'),
                 bounds={'clients in pre-state': '<=3 (2 synchronized connections with distinct or with the SAME client id, 1 ephemeral), requested flags free, t_last/prev_id/now/min_send_id unbounded Int',
-                        'queued requests': 2 if q else 3, 'request kinds': 'request / new / CLOSE, ids unbounded', 'send timeout': 0},
+                        'queued requests': 2, 'request kinds': 'request / new / CLOSE, ids unbounded', 'send timeout': 0},
                 functions=fn, stubs=stubs, assumptions=assume, budget_s=900),
         Harness('c04.send_sequence', send_sequence(3 if q else 4), twin=send_sequence(1, planted=True),
                 bounds={'send() calls': 3 if q else 4, 'requests between calls': '0-2 from 2 consumers, ids unbounded', 'time step': '[0, CONN_TIMEOUT) ms symbolic'},
